@@ -1268,7 +1268,7 @@ pub fn suite_big(cfg: &Cfg, rep: &mut Report) {
                 if n > 1_000_000 && order == "organ" {
                     continue;
                 }
-                let hint = [0usize, 1, 8, 9, 300][(idx % 5) as usize];
+                let hint = [0usize, 1, 8, 9, 300, 100_000, 70_000][(idx % 7) as usize];
                 let probes = cfg.str_or("probes", "").to_string();
                 if (probes == "handle" || probes == "steps") && coll == "keytree" {
                     continue;
